@@ -107,6 +107,8 @@ pub struct MChan {
     pub forwarded: u64,
     pub granted: u64,
     pub announced: u64,
+    /// receiver credit at the moment the receiver end was closed
+    pub rcap_at_close: u64,
 }
 
 #[derive(Debug, Clone)]
@@ -185,6 +187,9 @@ pub struct Model {
     choice_arity: Vec<usize>,
     /// zombies to which this step attempted a delivery
     touched_zombies: BTreeSet<usize>,
+    /// connections whose deliveries cannot be observed in the current burst (they terminate
+    /// themselves while it runs); set by the rig
+    pub unobservable: BTreeSet<usize>,
 }
 
 fn reply_invalid_direction(m: &Message) -> bool {
@@ -279,6 +284,7 @@ impl Model {
             choice_pos: 0,
             choice_arity: Vec::new(),
             touched_zombies: BTreeSet::new(),
+            unobservable: BTreeSet::new(),
         }
     }
 
@@ -890,6 +896,7 @@ impl Model {
                 forwarded: 0,
                 granted: 0,
                 announced: 0,
+                rcap_at_close: 0,
             },
             ChannelEndWithCapacity::Receiver(cap) => MChan {
                 cookie: k,
@@ -898,6 +905,7 @@ impl Model {
                 forwarded: 0,
                 granted: cap as u64,
                 announced: 0,
+                rcap_at_close: 0,
             },
         };
         self.chans.insert(k.0, ch);
@@ -974,6 +982,9 @@ impl Model {
         if *e == EndSt::Closed {
             return;
         }
+        if let (ChannelEnd::Receiver, EndSt::Claimed { credit, .. }) = (end, &*e) {
+            ch.rcap_at_close = *credit;
+        }
         *e = EndSt::Closed;
         let ck = ch.cookie;
         match other.clone() {
@@ -1009,6 +1020,11 @@ impl Model {
                     ch.receiver = EndSt::Claimed { owner: r, credit: rcap - 1 };
                     ch.forwarded += 1;
                     self.send(out, r, ItemReceived { cookie: m.cookie, value: m.value });
+                    if self.conns[owner].state == ConnState::Zombie {
+                        // a credit announcement to the sender may follow
+                        self.touched_zombies.insert(owner);
+                    }
+                    self.unobserved_announcement(m.cookie.0);
                 }
             }
         }
@@ -1030,6 +1046,25 @@ impl Model {
         }
         ch.receiver = EndSt::Claimed { owner, credit: new };
         ch.granted += m.capacity as u64;
+        // a credit announcement to the sender may follow (its timing is the broker's policy)
+        if let EndSt::Claimed { owner: s, .. } = ch.sender {
+            if self.conns[s].state == ConnState::Zombie {
+                self.touched_zombies.insert(s);
+            }
+        }
+        self.unobserved_announcement(m.cookie.0);
+    }
+
+    /// A credit announcement to a sender whose deliveries cannot be observed in this burst may
+    /// or may not have been made.
+    fn unobserved_announcement(&mut self, cookie: Uuid) {
+        let Some(ch) = self.chans.get(&cookie) else { return };
+        let (EndSt::Claimed { owner, credit }, EndSt::Claimed { credit: rcap, .. }) = (ch.sender.clone(), ch.receiver.clone()) else { return };
+        if self.unobservable.contains(&owner) && self.conns[owner].state == ConnState::Alive && rcap > credit && self.choose(2) == 1 {
+            let ch = self.chans.get_mut(&cookie).unwrap();
+            ch.sender = EndSt::Claimed { owner, credit: rcap };
+            ch.announced += rcap - credit;
+        }
     }
 
     /// Credit announcements to the sender are accepted whenever they stay within what the
@@ -1037,8 +1072,12 @@ impl Model {
     pub fn flex_accept(&mut self, conn: usize, msg: &Message) -> bool {
         let Message::AddChannelCapacity(m) = msg else { return false };
         let Some(ch) = self.chans.get_mut(&m.cookie.0) else { return false };
-        let (EndSt::Claimed { owner, credit }, EndSt::Claimed { credit: rcap, .. }) = (ch.sender.clone(), ch.receiver.clone()) else {
-            return false;
+        let EndSt::Claimed { owner, credit } = ch.sender.clone() else { return false };
+        let rcap = match ch.receiver {
+            EndSt::Claimed { credit: rcap, .. } => rcap,
+            // an announcement made just before the receiver went away
+            EndSt::Closed => ch.rcap_at_close,
+            EndSt::Unclaimed => return false,
         };
         if owner != conn || m.capacity == 0 {
             return false;
